@@ -2,7 +2,7 @@
   C04 — the terminal state: a completed run is quiescent and everything ran
   exactly once.
 -/
-import TopsimProofs.FinishInv9
+import TopsimProofs.FinishRes11
 
 namespace Topsim
 namespace Sys
@@ -84,16 +84,10 @@ theorem C04_finished_tasks_ran_partial (s0 s : Sys) (hw : WFConfig s0) (h : Reac
   · exact absurd ht (by simp)
   · rename_i b hb; rw [hb, ht]
 
-/-! ### (6) no reservation left at the end — statement, and the part that is proved -/
+/-! ### (6) no reservation left at the end -/
 
-/-- (6), full strength (NOT proved for `BatchProcessing`): with a shipped algorithm a
-finished simulation holds no batch reservation. -/
-def C04_no_reservation_at_finish_statement : Prop :=
-  ∀ (s0 s : Sys), WFConfig s0 → s0.alg ≠ .oracle → Reach s0 s → s.isFinished = true →
-    s.cl.idle = []
-
-/-- (6), partial: with the queue / dynamic / greedy algorithms no reservation exists at any
-point of any run (finished or not, whatever the oracle inputs). -/
+/-- (6), stronger for the queue / dynamic / greedy algorithms: no reservation exists at any
+point of any run (finished or not, whatever the oracle inputs, whatever the initial buffer). -/
 theorem C04_no_reservation_partial (s0 s : Sys) (hw : WFConfig s0) (h : Reach s0 s)
     (ha : s0.alg = .queue ∨ s0.alg = .dynamic ∨ s0.alg = .greedy) : s.cl.idle = [] :=
   reach_idle_nil hw h ha
@@ -105,6 +99,37 @@ theorem C04_finished_machines_back_nobatch (s0 s : Sys) (hw : WFConfig s0) (h : 
   have hno : s0.alg ≠ .oracle := by
     rcases ha with ha | ha | ha <;> rw [ha] <;> simp
   exact C04_finished_machines_back s0 s hw (h.toOk hno) hf (reach_idle_nil hw h ha)
+
+/-- (6) with a shipped algorithm a finished simulation holds no batch reservation. -/
+-- CORRECTED: added `hb0`, the initial buffer holds no observation.  `WFConfig` says nothing about
+-- `s0.buf`; the proof needs every observation to be handed to the scheduler at most once
+-- (`BufI`: an observation occurs at most once among `hot.stored`, `hot.scheduled`, `hot.finished`,
+-- `cold.stored` and the tier moves in flight).  With `s0.buf.hot.stored = [o, o]` the scheduler
+-- loop plans `o` twice: the second plan replaces the first while tasks of the first still hold
+-- reserved machines; with static plans the second plan may be empty, `allocate_tasks` then
+-- releases a reservation whose idle list is empty, `release_batch_resources` keeps the key
+-- (`if l ≠ []`), and the key survives `is_finished()`.
+theorem C04_no_reservation_at_finish (s0 s : Sys) (hw : WFConfig s0)
+    (hb0 : s0.buf.hot.stored = [] ∧ s0.buf.hot.scheduled = [] ∧ s0.buf.hot.finished = [] ∧
+      s0.buf.cold.stored = [])
+    (ha : s0.alg ≠ .oracle) (h : Reach s0 s) (hf : s.isFinished = true) : s.cl.idle = [] := by
+  have hbuf : bufList s0.buf = [] := by
+    obtain ⟨h1, h2, h3, h4⟩ := hb0
+    simp [bufList, h1, h2, h3, h4]
+  cases halg : s0.alg with
+  | batch parts minPer split => exact finished_no_reservation_batch s0 s hw hbuf halg h hf
+  | queue => exact reach_idle_nil hw h (Or.inl halg)
+  | dynamic => exact reach_idle_nil hw h (Or.inr (Or.inl halg))
+  | greedy => exact reach_idle_nil hw h (Or.inr (Or.inr halg))
+  | oracle => exact absurd halg ha
+
+/-- (3)+(6): with a shipped algorithm every machine is back in the available pool at the end. -/
+theorem C04_finished_machines_back_shipped (s0 s : Sys) (hw : WFConfig s0)
+    (hb0 : s0.buf.hot.stored = [] ∧ s0.buf.hot.scheduled = [] ∧ s0.buf.hot.finished = [] ∧
+      s0.buf.cold.stored = [])
+    (ha : s0.alg ≠ .oracle) (h : Reach s0 s) (hf : s.isFinished = true) :
+    s.cl.available.Perm (s0.machines.map (·.id)) :=
+  C04_finished_machines_back s0 s hw (h.toOk ha) hf (C04_no_reservation_at_finish s0 s hw hb0 ha h hf)
 
 end Sys
 end Topsim
